@@ -61,6 +61,12 @@ c.args(self=('obj', 'kmip.core.messages.messages.RequestMessage', {}), istream='
 c.may_raise_anything()
 c.modifies("self.request_header", "self.batch_items")
 c.modifies_kinds = {"self.request_header": HEADER, "self.batch_items": 'opaque'}
+# a failed decode leaves whatever was decoded so far: no header, or a header whose protocol
+# version object exists but is only partly filled in
+c.havoc_on_raise = {"self.request_header": ('oneof', 'none',
+                    ('obj', 'kmip.core.messages.messages.RequestHeader',
+                     {'authentication': 'opaque',
+                      'protocol_version': ('oneof', 'none', ('opaque_facts', 'half-decoded-version', ['partial']))}))}
 c.trust("decoder of the request message (covered by C01/ttlvsym); here: any bytes either raise or "
         "yield a request with a header")
 
